@@ -8,6 +8,15 @@ use ironbeam::testing::{
 use serde_json::{Value, json};
 use std::panic::{AssertUnwindSafe, catch_unwind};
 
+/// an element type whose Hash is deliberately coarser than its Eq
+#[derive(Debug, Clone, PartialEq, Eq)]
+struct Coarse(i64);
+impl std::hash::Hash for Coarse {
+    fn hash<H: std::hash::Hasher>(&self, state: &mut H) {
+        (self.0.rem_euclid(3)).hash(state);
+    }
+}
+
 fn accepts(f: impl FnOnce()) -> bool {
     catch_unwind(AssertUnwindSafe(f)).is_ok()
 }
@@ -101,6 +110,29 @@ fn run(kind: &str, input: &Value) -> Value {
                 _ => accepts(|| assert_grouped_kv_equal(groups(&input[1]), groups(&input[2]))),
             })
         }
+        // elements whose Hash is coarser than Eq (hash = value mod 3): in = [aid, a, b]
+        "pairc" => {
+            let aid = input[0].as_i64().unwrap();
+            let a: Vec<Coarse> = ints(&input[1]).into_iter().map(Coarse).collect();
+            let b: Vec<Coarse> = ints(&input[2]).into_iter().map(Coarse).collect();
+            Value::Bool(if aid == 0 {
+                accepts(|| assert_collections_equal(&a, &b))
+            } else {
+                accepts(|| assert_collections_unordered_equal(&a, &b))
+            })
+        }
+        // long sequences: in = [aid, n, diffs]; a[i] = i mod 5, b[i] = a[i] except (a[i]+1) mod 5 at
+        // the listed positions
+        "long" => {
+            let aid = input[0].as_i64().unwrap();
+            let n = input[1].as_u64().unwrap() as usize;
+            let diffs = ints(&input[2]);
+            let a: Vec<i64> = (0..n as i64).map(|i| i % 5).collect();
+            let b: Vec<i64> = (0..n as i64)
+                .map(|i| if diffs.contains(&i) { (i % 5 + 1) % 5 } else { i % 5 })
+                .collect();
+            Value::Bool(acc01(aid, &a, &b))
+        }
         // two slices of ONE buffer: in = [aid, v, i, j] -> assert(&v[..i], &v[..j])
         "alias" => {
             let aid = input[0].as_i64().unwrap();
@@ -175,6 +207,39 @@ fn generate(seed: u64, tier: Tier, em: &mut Emitter) {
             for m in 0..4 {
                 em.case("zst", json!([aid, n, m]), n != m, &["zst"]);
             }
+        }
+    }
+
+    // 1c. long sequences differing at few positions (a block-wise / SIMD-style comparison must not
+    // skip an index), and hash-colliding elements (a hash-ordered comparison must not reject
+    // permutations)
+    for aid in 0..2 {
+        for n in [63usize, 64, 65, 66, 129, 130, 131, 195, 200] {
+            let n_i = n as i64;
+            let mut sets: Vec<Vec<i64>> = vec![vec![]];
+            for p in [0, 1, 62, 63, 64, 65, 66, 127, 128, 129, 130, 192, 193, 194, 195, n_i - 2, n_i - 1] {
+                if p >= 0 && p < n_i {
+                    sets.push(vec![p]);
+                }
+            }
+            if n > 130 {
+                sets.push(vec![64, 129]);
+            }
+            if n > 195 {
+                sets.push(vec![64, 129, 194]);
+            }
+            for d in sets {
+                em.case("long", json!([aid, n, d]), true, &["long"]);
+            }
+        }
+        for a in all_seqs(&[0i64, 3, 6, 1], 4) {
+            // 0, 3, 6 collide under hash = value mod 3
+            let mut b = a.clone();
+            b.reverse();
+            em.case("pairc", json!([aid, a, b]), a.len() >= 2, &["coarse-hash"]);
+            let mut c = a.clone();
+            c.rotate_left(1.min(a.len()));
+            em.case("pairc", json!([aid, a, c]), a.len() >= 2, &["coarse-hash"]);
         }
     }
 
